@@ -262,6 +262,9 @@ pub fn eval_large(c: &LargeCase) -> CaseResult {
         large_graph(c)
     };
     let sb = Sandbox::new("c04");
+    // the two top bits of `extra` choose the number of runtime threads (default, 1, 2, 4)
+    let rt = [0u8, 1, 2, 4][(c.extra >> 6) as usize];
+    set_runtime_threads(rt);
     let dir = write_graph_project(&sb, &g, &|_| String::new());
     let mut planted: Vec<&'static str> = vec![];
     if special {
@@ -305,13 +308,14 @@ pub fn eval_large(c: &LargeCase) -> CaseResult {
         });
     let depth = if shape == "chain" { g.n() } else { 0 };
     let nontrivial = max_fan >= 33 || depth >= 50 || roots.len() >= 33 || (cmd_heavy && c.size * 100 > 65_536) || (special && !planted.is_empty());
-    let sample = json!({"shape": shape, "size": c.size, "targets": g.n(), "requested": roots.len(), "max_fan": max_fan, "non_regular_entries": planted});
+    let sample = json!({"shape": shape, "size": c.size, "targets": g.n(), "requested": roots.len(), "max_fan": max_fan, "non_regular_entries": planted, "runtime_threads": rt});
     let mut r = CaseResult {
         nontrivial,
         fingerprint: if special { format!("{}|{:?}", shape, planted) } else { format!("{}|{}", shape, (c.size as f64).log2().floor()) },
         classes: vec![
             format!("shape-{}", shape),
             format!("size-2^{}", (c.size as f64).log2().floor()),
+            format!("runtime-threads-{}", rt),
         ],
         sample: sample.clone(),
         ..Default::default()
